@@ -783,7 +783,18 @@ class Solver:
         if self.timeout:
             s.set('timeout', int(self.timeout))
         s.from_string(text)
-        r = s.check()
+        timer = None
+        if self.timeout:
+            import threading
+            # z3's own timeout is not honoured inside some preprocessing steps: interrupt from a watchdog thread
+            timer = threading.Timer(self.timeout / 1000.0 + 3, lambda: _z3.main_ctx().interrupt())
+            timer.daemon = True
+            timer.start()
+        try:
+            r = s.check()
+        finally:
+            if timer is not None:
+                timer.cancel()
         if r == _z3.sat:
             m = s.model()
             env = {}
